@@ -1097,6 +1097,29 @@ type Cache[K comparable, V any] interface {
 flagsets("numbered", "adv/numbered", ["Compare"], modes=("",))
 flagsets("numbered-gen", "adv/numbered", ["Cache"])
 
+# D16 (repaired): a parameter called a, and one variable whose type brings in packages with the qualifiers
+# a and aMoqParam: the two renames do not commute, the imports are visited in the order of their paths
+EXTRA_DEPS["dep/ord/a"] = ("a", "type T struct{}\n")
+EXTRA_DEPS["dep/ord/zz"] = ("aMoqParam", "type T struct{}\n")
+EXTRA_DEPS["dep/ord2/zz"] = ("b", "type T struct{}\n")
+EXTRA_DEPS["dep/ord2/a"] = ("bMoqParam", "type T struct{}\n")
+FILES["adv/renameorder/a.go"] = """package renameorder
+
+import (
+	"example.com/m/dep/ord/a"
+	aMoqParam "example.com/m/dep/ord/zz"
+	bMoqParam "example.com/m/dep/ord2/a"
+	b "example.com/m/dep/ord2/zz"
+)
+
+type Ordered interface {
+	First(a int, f func(x a.T, y aMoqParam.T))
+	Second(b int, f func(x b.T, y bMoqParam.T))
+	Both(a, b string, m map[a.T]b.T, g func(aMoqParam.T) bMoqParam.T)
+}
+"""
+flagsets("renameorder", "adv/renameorder", ["Ordered"])
+
 
 def write_all(root, write):
     for rel, (name, decls) in EXTRA_DEPS.items():
